@@ -132,6 +132,26 @@ def gen_world(rng):
             e["c"] = [holder]
             e["l"] = [strip_plus(ids_of(expr)[0])]
         entries.append(e)
+    if glob_kind == "toml" and rng.chance(0.5):
+        # one 'closest' annotation shared by several files: a file with a partial header takes the other half from it,
+        # header-less files take everything (visited in listing order by one process, or spread over pool chunks)
+        holder, expr = "2015 Shared Holder", rng.pick(G.VALID)
+        tables.append({"path": "shared/**", "precedence": "closest", "SPDX-FileCopyrightText": holder, "SPDX-License-Identifier": expr})
+        part = rng.pick(["c-only", "l-only"])
+        own_holder, own_expr = "2016 Partial Person", rng.pick(G.VALID)
+        head = _header("python", [own_holder], []) if part == "c-only" else _header("python", [], [own_expr])
+        names = ["shared/a_partial.py"] + [f"shared/{x}.py" for x in rng.sample(["b", "c", "d", "m", "z"], rng.randint(2, 4))]
+        if rng.chance(0.5):
+            names[0] = "shared/zz_partial.py"
+        for nm in names:
+            if "partial" in nm:
+                files.append({"path": nm, "content": head + "\n\nimport os\n"})
+                entries.append({"path": nm, "kind": "shared-partial", "reads": nm,
+                                "c": [f"SPDX-FileCopyrightText: {own_holder}"] if part == "c-only" else [holder],
+                                "l": [expr] if part == "c-only" else [own_expr]})
+            else:
+                files.append({"path": nm, "content": "import sys\n"})
+                entries.append({"path": nm, "kind": "shared-plain", "reads": nm, "c": [holder], "l": [expr]})
     if tables:
         files.append({"path": "REUSE.toml", "content": G.reuse_toml(tables)})
     if paras:
@@ -226,6 +246,12 @@ def gen_world(rng):
             entries.append({"path": ".gitignore", "kind": "plain", "c": [], "l": [], "reads": ".gitignore"})
             defects.append(("no-info", ".gitignore"))
             ignored = ["build/gen.py", "scratch.tmp"]
+            if rng.chance(0.4):
+                # a submodule (by .gitmodules) whose files carry nothing: not covered, whatever the working directory
+                files.append({"path": ".gitmodules", "content": '[submodule "lib"]\n\tpath = vendor/lib\n\turl = https://example.org/lib.git\n'})
+                files.append({"path": "vendor/lib/code.c", "content": "int unlicensed;\n"})
+                entries.append({"path": ".gitmodules", "kind": "plain", "c": [], "l": [], "reads": ".gitmodules"})
+                defects.append(("no-info", ".gitmodules"))
             if rng.chance(0.6):
                 # tracked although it matches an ignore pattern (git add -f, or ignored after it was committed):
                 # Git does not ignore tracked files, so it is a covered file like any other
@@ -241,14 +267,25 @@ def gen_case(seed, tier, index=0):
     world, entries, lic_files, defects, ignored = gen_world(rng)
     sizes = {f["path"]: len(f["content"].encode("utf-8", "surrogateescape")) for f in world["files"]}
 
+    subdirs = sorted({posixpath.dirname(f["path"]).split("/")[0] for f in world["files"]
+                      if "/" in f["path"] and not f["path"].startswith((".", "LICENSES", "build", "vendor"))})
+
     def env():
         e = {"readdir_key": rng.randrange(1 << 30) if rng.chance(0.7) else 0}
+        w = rng.randrange(10)
+        if w == 0 and subdirs:
+            e["cwd"], e["root_opt"] = rng.pick(subdirs), ["--root", ".."]
+        elif w == 1:
+            e["cwd"], e["root_opt"] = "..", ["--root", "p"]
+        elif w == 2 and subdirs and world.get("git"):
+            e["cwd"], e["root_opt"] = rng.pick(subdirs), []  # Git finds the root
         if rng.chance(0.2):
             e["short_io"] = rng.pick([3, 64])
+        ro = e.pop("root_opt", [])
         if rng.chance(0.5):
-            e["argv"] = ["--no-multiprocessing", "lint", "--json"]
+            e["argv"] = ro + ["--no-multiprocessing", "lint", "--json"]
         else:
-            e["argv"] = ["lint", "--json"]
+            e["argv"] = ro + ["lint", "--json"]
             e["pool"] = {"n": rng.pick([1, 2, 3, 4, 8]), "key": rng.randrange(1 << 30)}
             if rng.chance(0.3):
                 e["pool"]["chunk"] = rng.randint(1, 4)
@@ -296,7 +333,7 @@ def gen_case(seed, tier, index=0):
             # the same faults against lint-file on the faulted files plus one healthy file
             names = sorted(set(_F_of(st)[0]) | {entries[0]["path"]})
             lf = dict(st, argv=[a for a in st["argv"] if a not in ("lint", "--json")] + ["lint-file"] + names)
-            if not any(m for m in muts):
+            if not any(m for m in muts) and st.get("cwd", ".") == ".":
                 steps.append(lf)
         variants.append({"hashseed": rng.randrange(8), "steps": steps, "kind": "faulty"})
     return {"prop": PROP, "seed": seed, "world": world, "entries": entries, "lic_files": lic_files, "defects": defects,
@@ -364,14 +401,20 @@ CATS = ["read_errors", "missing_copyright_info", "missing_licensing_info", "miss
         "deprecated_licenses", "unused_licenses", "licenses_without_extension"]
 
 
-def observed(rec):
+def observed(rec, step=None):
     try:
         d = json.loads(rec.get("stdout", ""))
     except ValueError:
         return None
+    argv = (step or {}).get("argv", [])
+    spelled = argv[argv.index("--root") + 1] if "--root" in argv else None
+    if spelled is None and (step or {}).get("cwd", ".") != ".":
+        spelled = ".."  # Git's answer, relative to the sub-directory
     nc = d["non_compliant"]
     def cp(p):
         # without --root and without Git the root is the absolute cwd, and reported paths follow its spelling
+        if spelled and p.startswith(spelled + "/"):
+            return p[len(spelled) + 1:]
         p = posixpath.normpath(p)
         return p[len("$B/p/"):] if p.startswith("$B/p/") else p
 
@@ -398,7 +441,7 @@ def _valid(case):
             continue
         if e["reads"] is not None and e["reads"] not in present:
             return False
-        if e["kind"] in ("override", "closest", "aggregate") and "REUSE.toml" not in present:
+        if e["kind"] in ("override", "closest", "aggregate", "shared-partial", "shared-plain") and "REUSE.toml" not in present:
             return False
         if e["kind"] == "dep5" and ".reuse/dep5" not in present:
             return False
@@ -422,7 +465,7 @@ def oracle(case, results):
             continue
         F_paths = set(F_list)
         exp = expected(case, F_paths)
-        ob = observed(rec)
+        ob = observed(rec, var["steps"][0])
         if ob is None:
             vs.append({"sig": f"C01/no-json/{tag}", "detail": f"exit={rec.get('exit')} stdout={rec.get('stdout', '')[:300]} stderr={rec.get('stderr', '')[-300:]}"})
             continue
